@@ -175,6 +175,18 @@ def history_check(prop, tier, seed, build_workloads, module="TraceLibrary", cfg=
     return 1 if violations else 0
 
 
+def smoke_rest(ws, chosen, tier, make):
+    """Quick tier: every supported schema version the quick selection leaves out still gets a few executions (a change that
+    touches the creator or the detection of ONE version must not slip through the every-change check)."""
+    if tier != "quick":
+        return
+    for s in vlib.ALL:
+        if s not in chosen:
+            w = make(s)
+            if w:
+                ws.append(w)
+
+
 def pick_extra(pool, seed, k):
     r = random.Random(seed)
     pool = list(pool)
@@ -233,6 +245,8 @@ def check_C07(tier, seed):
             r = random.Random(seed * 7919 + vlib.ALL.index(s))
             ws.append(Workload(s, r.sample(sc, min(nr, len(sc))), ["a", "b", "c", "", "x;y"], tag="r", origin=st["instance"],
                                flags={"u8": True} if vlib.ALL.index(s) % 2 == 0 else None))
+        smoke_rest(ws, list(plan), tier, lambda s: Workload(s, random.Random(seed + vlib.ALL.index(s)).sample(rcache[vlib.family(s)][1], 6),
+                                                             ["a", "b", "c", "", "x;y"], tag="v", origin=rcache[vlib.family(s)][0]["instance"]))
         return ws
 
     return history_check(
@@ -443,6 +457,13 @@ def check_C16(tier, seed):
             ws.append(Workload(s, pick2, ["a", "d"], mode="mem", flags={"rep": True}, origin=st2["instance"]))
             pick3 = (sc + sc2) if len(sc + sc2) <= ndisk else r.sample(sc + sc2, ndisk)
             ws.append(Workload(s, pick3, libcheck.NAMES4 + ["d"], mode="disk", flags={"rep": True, "reopen": True}, origin=st["instance"]))
+
+        def smoke(s):
+            st, sc, st2, sc2 = cache[vlib.family(s)]
+            r = random.Random(seed * 11 + vlib.ALL.index(s))
+            return Workload(s, r.sample(sc + sc2, min(10, len(sc + sc2))), libcheck.NAMES4 + ["d"], mode="disk", flags={"rep": True, "reopen": True},
+                            tag="v", origin=st["instance"])
+        smoke_rest(ws, schemas, tier, smoke)
         return ws
 
     def build_tracks(wd, mc_stats):
@@ -565,6 +586,13 @@ def check_C10(tier, seed):
             ws.append(Workload(s, libcheck.with_via(picked[:nm], r), ["a", "b", "c", "d"], mode="disk", tag="m", origin=st["instance"],
                                flags={"conn2": True, "rep": True}))
         libcheck.model_check_multiconn(wd, mc_stats, max_calls=4 if tier == "quick" else 5)
+
+        def smoke(s):
+            sc = rcache[vlib.family(s)][1]
+            r = random.Random(seed * 3 + vlib.ALL.index(s))
+            picked = [list(x)[:20] + [{"op": "reopen"}] + list(x)[20:] + [{"op": "reopen"}] for x in r.sample(sc, min(4, len(sc)))]
+            return Workload(s, picked, ["a", "b", "c", "d"], mode="disk", tag="v", origin=rcache[vlib.family(s)][0]["instance"])
+        smoke_rest(ws, schemas, tier, smoke)
         return ws
 
     return history_check(
@@ -599,6 +627,13 @@ def check_C11(tier, seed):
         stats, sens, problems = mcv2store.model_check_v1(wd, tier, mc_stats, variants=(tier != "quick"))
         if problems:
             raise vlib.ToolFailure("; ".join(problems))
+
+        def smoke(s):
+            st, sc, st2, sc2 = cache[(vlib.family(s), (3, 4), (3, 5, 13))]
+            r = random.Random(seed * 5 + vlib.ALL.index(s))
+            return Workload(s, r.sample(sc, min(12, len(sc))) + r.sample(sc2, min(6, len(sc2))), libcheck.NAMES4 + ["d"], flags={"raw": True, "u8": True},
+                            tag="v", origin=st["instance"], also=vlib.store_also(s))
+        smoke_rest(ws, schemas, tier, smoke)
         return ws
 
     def build_tracks(wd, mc_stats):
